@@ -80,7 +80,7 @@ def templates(e: Env, st: Sites, level: str):
     return out
 
 
-def rw_family(mode: str, version: int, level: str, seed: int = 0, where: str = "main", nrandom: int = 0, xslot=None):
+def rw_family(mode: str, version: int, level: str, seed: int = 0, where: str = "main", nrandom: int = 0, xslot=None, offset: int = 0):
     out = []
     e = Env(mode, version)
     V = {"x": {"t": "u"}, "y": {"t": "u"}, "i": {"t": "u"}}
@@ -92,7 +92,8 @@ def rw_family(mode: str, version: int, level: str, seed: int = 0, where: str = "
     for n in range(1, maxlen + 1):
         combos += list(itertools.product(names, repeat=n))
     if level == "quick":
-        combos = combos[::3]
+        # every single template, every third pair (the caller rotates the offset over versions / placements)
+        combos = [c for c in combos if len(c) == 1] + [c for c in combos if len(c) > 1][offset % 3::3]
     if nrandom:
         rng = random.Random(seed * 977 + version)
         for _ in range(nrandom):
